@@ -1,4 +1,4 @@
-"""C18 -- Shell loads, prescribed amplitudes and partitioning are mutually consistent (classical Donnell models bc1-bc4).
+"""C18 -- Shell loads, prescribed amplitudes and partitioning are mutually consistent (Donnell / Sanders CLPT and Donnell FSDT, bc1-bc4).
 
 E4: the real ConeCyl object (conecyl.py: _rebuild, exclude_dofs_matrix, calc_full_c, calc_fext, uvw) with symbolic attributes;
 E1: clpt_commons_bc*.pyx (fg, fuvw, cfuvw, ...) de-Cythonised, trigonometric values as atoms (vf/trig.py).
@@ -21,6 +21,8 @@ from ..sym import Sym
 from ..conesym import ConeCtx, COMMONS
 from ..eigstubs import sym_matrix, dense_of
 from ..shadow import ShimCOO
+import compmech.conecyl.modelDB as _mdb
+MDB = _mdb.db
 
 
 def build(cfg, values=None):
@@ -129,7 +131,7 @@ def build(cfg, values=None):
                 cc.Fc = V('Fc')
             # the linear matrices are not the subject here (C16): a placeholder of the right size keeps calc_fext from computing them
             from ..shadow import ShimCSR
-            nsz = 3 + 3 * cc.m1 + 6 * cc.m2 * cc.n2
+            nsz = MDB[cc.model]['num0'] + MDB[cc.model]['num1'] * cc.m1 + MDB[cc.model]['num2'] * cc.m2 * cc.n2
             cc.k0 = ShimCSR((nsz, nsz))
             cc._rebuild()
             size = cc.get_size()
@@ -189,7 +191,7 @@ def build(cfg, values=None):
             cc.Fc = 0.
             cc.P, cc.P_inc = V('P'), V('P_inc')
             inc = V('inc')
-            nsz = 3 + 3 * cc.m1 + 6 * cc.m2 * cc.n2
+            nsz = MDB[cc.model]['num0'] + MDB[cc.model]['num1'] * cc.m1 + MDB[cc.model]['num2'] * cc.m2 * cc.n2
             cc.k0 = ShimCSR((nsz, nsz))
             cc._rebuild()
             size = cc.get_size()
@@ -232,7 +234,7 @@ def build(cfg, values=None):
             N = np.array([V('N%d' % k) for k in range(2 * n2 + 1)], dtype=object)
             cc.Nxxtop = N.copy()
             inc = V('inc')
-            nsz = 3 + 3 * cc.m1 + 6 * cc.m2 * cc.n2
+            nsz = MDB[cc.model]['num0'] + MDB[cc.model]['num1'] * cc.m1 + MDB[cc.model]['num2'] * cc.m2 * cc.n2
             cc.k0 = ShimCSR((nsz, nsz))
             cc._rebuild()
             size = cc.get_size()
@@ -250,7 +252,7 @@ def build(cfg, values=None):
             Nxx = TP.const(N[0], W)
             for j in range(1, n2 + 1):
                 Nxx = Nxx + W.sin(W.theta * j) * N[2 * j - 1] + W.cos(W.theta * j) * N[2 * j]
-            num0, num1 = cc.num0, 3
+            num0, num1 = cc.num0, MDB[cc.model]['num1']
             first_double = num0 + num1 * cc.m1
             for a, k in enumerate(keep):
                 if k in (1, 2):
@@ -287,7 +289,7 @@ def configs(tier, seed):
         for model in models:
             out.append({'variant': 'fext', 'pd': pd, 'model': model, 'mn': (1, 1, 1) if quick else (2, 1, 2), 'group': 'fext:%s:pdC=%d,pdT=%d' % ((model,) + pd[:2]), 'm': 1, 'n': 1,
                         'timeout_ms': 120000})
-    for model in (['clpt_donnell_bc1', 'clpt_donnell_bc3'] if quick else list(COMMONS)):
+    for model in (['clpt_donnell_bc1', 'clpt_donnell_bc3'] if quick else [m_ for m_ in COMMONS if m_.startswith('clpt')]):      # the package raises NotImplementedError for FSDT
         out.append({'variant': 'fext-pressure', 'model': model, 'mn': (3, 2, 1), 'group': 'fext-pressure:%s' % model, 'm': 3, 'n': 1, 'timeout_ms': 120000})
     for model in (['clpt_donnell_bc2', 'clpt_donnell_bc4', 'clpt_donnell_bc1'] if quick else list(COMMONS)):
         out.append({'variant': 'fext-harmonics', 'model': model, 'mn': (1, 2, 2), 'group': 'fext-harmonic-axial-load:%s' % model, 'm': 2, 'n': 2, 'timeout_ms': 120000})
@@ -312,7 +314,7 @@ def main():
                   'prescribed subsets': ['LA', 'C+LA', 'T+LA', 'C+T+LA'], 'configurations': len(cf)}
     run.assume('trigonometric values enter as atoms per argument class with S^2 + C^2 = 1; multiples of pi/2 exact', 'r2, L non-zero; generic (non-zero) symbolic attributes in truthiness tests of _rebuild',
                'pdLA = True (the only value the API admits)')
-    run.outside = ['load terms of the torsion / tilt amplitudes under a harmonic axial load (the package own definition of Nxxtop[2])', 'Sanders / FSDT / iso models', 'K_uu c_u = f_u solve (C07 decides sparse.solve)',
+    run.outside = ['load terms of the torsion / tilt amplitudes under a harmonic axial load (the package own definition of Nxxtop[2])', 'iso models; quick tier: Donnell CLPT only (thorough: + Sanders CLPT, FSDT Donnell)', 'K_uu c_u = f_u solve (C07 decides sparse.solve)',
                    'orders above the bound']
     res = pmap(kprop.job, [(__name__, c) for c in cf])
     kprop.handle(run, res, build, 'values differ from the definition')
